@@ -245,6 +245,20 @@ FeedEv(e) ==
        /\ mh' = Push(mh, r.out)
        /\ stats' = Bump(stats, keys)
 
+(* Measured real clock (events with `rt`): the driver's filter kept this poll because the bracketing     *)
+(* readings r0 <= r1 (microseconds) CONFIRM its class in declared time `sn` (ms) against every earlier   *)
+(* feed of the same instance and channel - the predicates of MC_Brackets.  TLC re-checks that here; a    *)
+(* poll that should have been discarded is a defect of the machinery (TOOLERR), never a verdict.         *)
+RtConfirmed(j, to) ==
+    LET e == Rec[j]
+        news == {s \in 1..(j - 1) : Rec[s].op = "new" /\ Rec[s].id = e.id}
+        start == IF news = {} THEN 0 ELSE CHOOSE s \in news : \A t \in news : t <= s
+        fs == {f \in (start + 1)..(j - 1) : /\ Rec[f].op = "feed" /\ Rec[f].id = e.id /\ Has(Rec[f], "rt")
+                                            /\ MsgChannel(Rec[f].m) = e.ch}
+    IN \A f \in fs : IF 2 * (e.sn - Rec[f].sn) >= to
+                      THEN 2 * (e.r0 - Rec[f].r1) >= 1000 * to      \* confirmed late   (to is in half-ms)
+                      ELSE 2 * (e.r1 - Rec[f].r0) < 1000 * to       \* confirmed early
+
 PollEv(e) ==
     LET i  == inst[e.id]
         c  == e.ch
@@ -274,9 +288,11 @@ PollEv(e) ==
        /\ (IF r.out = e.out THEN TRUE ELSE PrintT(<<"DRIFT", "out", l>>))
        /\ (IF (e.eqp = (r.st = cs.m)) THEN TRUE ELSE PrintT(<<"DRIFT", "eqp", l>>))
        /\ (IF gg = cs.g THEN TRUE ELSE PrintT(<<"TOOLERR", "ghost-vs-history", l>>))
+       /\ (IF Has(e, "rt") /\ i.to # Inf /\ ~RtConfirmed(l, i.to)
+           THEN PrintT(<<"TOOLERR", "real-time-poll-not-confirmed-by-its-brackets", l>>) ELSE TRUE)
        /\ inst' = SetInst(inst, e.id, i2)
        /\ mh' = Push(mh, r.out)
-       /\ stats' = Bump(stats, keys)
+       /\ stats' = Bump(stats, keys \cup (IF Has(e, "rt") THEN {"poll.rt"} ELSE {}))
 
 TickEv(e) ==
     /\ inst' = [x \in DOMAIN inst |->
